@@ -74,6 +74,72 @@ example : closed ([.goto "x"] : List (Prim String)) = false ∧
     closed ([.fork "f" ["a"], .label "b"] : List (Prim String)) = false := by
   decide
 
+/-! ### Open finding `2.x:scope-reopened` (known_findings.json): scopes per execution path
+
+  Full statement one would like (NOT true for the code as it is):
+      ∀ p, Closed p → ∀ h, Reach p h → ∀ c, step p h c ≠ .scopeError
+  i.e. no head ever meets `BeginScope(n)` while it still holds `n`.  `Closed` pairs BeginScope / EndScope on the
+  linear element order only; `_expand_when_stmt_element` closes the scope on every case path but not on the else
+  path, so inside a loop the same BeginScope is met again.  The program below is the real expansion (labels
+  shortened) of  `while c: when Ev(): <then>  else: <else>`. -/
+
+def whenElseInLoop : List (Prim String) := Closed.whenElseInLoop
+
+example : whenElseInLoop =
+  [.label "wb", .goto "we",
+   .beginScope "s", .fork "cf" ["init_a"],
+   .label "init_a", .catchFail (some "fail_a"), .fork "gf" ["group_a_0"],
+   .label "group_a_0", .specOp "match" false false, .goto "case_a",
+   .label "case_a", .merge "cf", .catchFail none, .endScope "s", .specOp "send" false false, .goto "when_end",
+   .label "fail_a", .waitHeads 1, .catchFail none, .goto "when_else",
+   .label "when_else", .waitHeads 1, .goto "when_else_stmt",
+   .label "when_else_stmt", .specOp "send" false false,
+   .label "when_end",
+   .goto "wb", .label "we"] := rfl
+
+/-- The code as it is: the expansion of `when … else` inside `while` passes the (linear) closedness check, and yet
+    the head that took the else branch reaches the BeginScope again while still holding the scope —
+    `slide` raises "Scope … already opened in this head" (concrete witness, by evaluation). -/
+theorem when_else_scope_as_is_counterexample :
+    closed whenElseInLoop = true ∧
+    ∃ h, Reach whenElseInLoop h ∧ step whenElseInLoop h true = .scopeError := by
+  refine ⟨by decide, ?_⟩
+  have hp : runPath whenElseInLoop { pos := 0, handlers := [], scopes := [] }
+      [(true, 0), (false, 0), (true, 0), (true, 0), (true, 0), (true, 0), (true, 0), (true, 0), (false, 0),
+       (true, 0), (true, 0), (true, 0), (true, 0), (true, 0), (true, 0), (true, 0), (true, 0), (true, 0), (false, 0)]
+      = some { pos := 2, handlers := [], scopes := ["s"] } := by decide
+  exact ⟨_, runPath_reach _ _ _ _ Reach.start hp, by decide⟩
+
+/-- Partial statement, excluding exactly the finding's region (programs that open scopes: `when`, await-groups):
+    a program without BeginScope never raises the scope error. -/
+theorem scope_safe_partial {L : Type} [DecidableEq L] (p : List (Prim L)) (hns : ∀ n, Prim.beginScope n ∉ p)
+    (h : Head L) (c : Bool) : step p h c ≠ .scopeError := by
+  unfold step
+  cases hp : p[h.pos]? with
+  | none => simp
+  | some e =>
+    have hmem : e ∈ p := List.mem_of_getElem? hp
+    cases e with
+    | beginScope n => exact absurd hmem (hns n)
+    | goto l =>
+      cases c with
+      | true => simp only [if_true]; cases lookupLabel p l <;> simp
+      | false => simp
+    | fork u ls => simp only; cases lookupAll p ls <;> simp
+    | abort => simp only; cases h.handlers <;> simp [jumpTo] <;> (rename_i l _; cases lookupLabel p l <;> simp)
+    | brk o => cases o <;> simp [jumpTo] <;> (rename_i l; cases lookupLabel p l <;> simp)
+    | cont o => cases o <;> simp [jumpTo] <;> (rename_i l; cases lookupLabel p l <;> simp)
+    | catchFail o => cases o <;> simp <;> cases h.handlers <;> simp
+    | specOp op g rv =>
+      cases c with
+      | true => simp
+      | false => simp only; cases h.handlers <;> simp <;> (rename_i l _; cases lookupLabel p l <;> simp)
+    | _ => simp
+
+/-- non-vacuity of `scope_safe_partial`'s hypothesis: a loop program without scopes -/
+example : ∀ n, Prim.beginScope n ∉ ([.label "b", .goto "e", .brk (some "e"), .goto "b", .label "e"] : List (Prim String)) := by
+  intro n; simp
+
 /-! ## (A) Colang 1.0: the verified checker -/
 
 /-- The executable checker decides "every relative jump / branch offset lands inside the flow, the fields `slide`
